@@ -2,9 +2,16 @@
 """writes PhyloModel/Audit/Cxx.lean (#print axioms for every theorem of Props/Cxx.lean)"""
 import re,sys,os
 root='/verif/lean/PhyloModel/PhyloModel'
+import glob
 for p in sys.argv[1:]:
-    src=open(f'{root}/Props/{p}.lean').read()
-    src=re.sub(r"/-.*?-/","",src,flags=re.S); src=re.sub(r"--.*","",src)
-    names=re.findall(r"^\s*theorem\s+([A-Za-z0-9_.']+)",src,flags=re.M)
-    open(f'{root}/Audit/{p}.lean','w').write(f"import PhyloModel.Props.{p}\n"+"".join(f"#print axioms {p}.{n}\n" for n in names))
+    # a property's theorems live in Props/Cxx.lean and, where a helper file has to import the first part, in further
+    # files Props/Cxx<Suffix>.lean (all in namespace Cxx)
+    files=sorted(glob.glob(f'{root}/Props/{p}*.lean'))
+    names=[]
+    for f in files:
+        src=open(f).read()
+        src=re.sub(r"/-.*?-/","",src,flags=re.S); src=re.sub(r"--.*","",src)
+        names+=re.findall(r"^\s*theorem\s+([A-Za-z0-9_.']+)",src,flags=re.M)
+    mods=[os.path.basename(f)[:-5] for f in files]
+    open(f'{root}/Audit/{p}.lean','w').write("".join(f"import PhyloModel.Props.{m}\n" for m in mods)+"".join(f"#print axioms {p}.{n}\n" for n in names))
     print(p,len(names))
